@@ -75,7 +75,9 @@ def plan(tier, seed):
         require=['matrix_formulas', 'paren_forms', 'binder_formulas',
                  'random_formulas', 'roundtrips', 'constant_spellings',
                  'node_reference_formulas', 'comment_formulas',
-                 'refused_formulas_in_between'],
+                 'refused_formulas_in_between',
+                 'managers_with_dynamic_reordering',
+                 'formulas_with_reordering_due'],
         assumptions=[
             'vf/formula.py reads the grammar as documented in doc.md '
             '(precedence list, left associativity, binders extend right)',
@@ -257,11 +259,28 @@ def random_(ctx, spec):
     names = NAME_SETS[spec['sub'] % len(NAME_SETS)][:spec['n']]
     order = names[:]
     rng.shuffle(order)
+    import dd.bdd as _b
+    starts0 = _b.REORDER_STARTS
+    try:
+        _random(ctx, spec, rng, names, order, _b)
+    finally:
+        _b.REORDER_STARTS = starts0
+
+
+def _random(ctx, spec, rng, names, order, _b):
     m1 = Mgr(ctx, names, order, spec['auto'], rng)
     # a second manager with another order and the other interface: the
     # translator is shared by all managers of the process
     order2 = order[::-1] if len(order) > 1 else order[:]
     m2 = Mgr(ctx, names, order2, not spec['auto'], rng)
+    if spec['sub'] % 3 == 1:
+        # the dd.autoref manager reorders by itself while formulas are
+        # being translated (results are live Function objects)
+        _b.REORDER_STARTS = 4
+        for m in (m1, m2):
+            if m.auto:
+                m.bdd.configure(reordering=True)
+                ctx.counters['managers_with_dynamic_reordering'] += 1
     bad = 0
     for k in range(spec['count']):
         depth = 1 + k % 5
@@ -280,6 +299,10 @@ def random_(ctx, spec):
             else:
                 ctx.counters['damaged_formula_accepted'] += 1
         s = formula.gen(rng, names, depth, m.nodes)
+        if m.auto and k % 5 == 0 and m.bdd.configure()['reordering']:
+            # a reordering is due within the next two new nodes
+            m.raw._last_len = len(m.raw) // 2 + 1
+            ctx.counters['formulas_with_reordering_due'] += 1
         bad += not m.judge(s, 'random_formulas', also_paren=(k % 3 == 0))
         if bad > 4:
             return
@@ -289,6 +312,10 @@ def random_(ctx, spec):
             # keep the managers small; nodes for @n are held
             m1.raw.collect_garbage()
             m2.raw.collect_garbage()
+            for m in (m1, m2):
+                if m.bdd.configure()['reordering']:
+                    # low threshold again (it doubles at each reordering)
+                    m.bdd.configure(reordering=True)
     monitors.check_structure(m1.raw)
     monitors.check_structure(m2.raw)
 
